@@ -19,21 +19,24 @@ Lemma Sim_mono d d' a b :
   (forall c, memN c d' = false -> memN c d = false) -> Sim d a b -> Sim d' a b.
 Proof. intros H (A & B & C). repeat split; auto. Qed.
 
-Lemma resolve_owner ss n name m : resolve T ss n name = Some m -> owner m = owner n.
+Lemma resolve_client_to_client ss c name c' :
+  resolve T ss (NC c) name = Some (NC c') -> c' = c.
 Proof.
-  unfold resolve. destruct (has_def T n name); [intro H; inversion H; reflexivity|].
-  destruct n as [c|c i]; destruct (s_cur T ss c) as [j|]; try discriminate.
-  - destruct (has_def T (NT c j) name); intro H; inversion H; reflexivity.
-  - destruct (N.eqb i j && has_def T (NC c) name); intro H; inversion H; reflexivity.
+  unfold resolve. destruct (has_def T (NC c) name); [intro H; inversion H; reflexivity|].
+  destruct (s_cur T ss c) as [t|] eqn:E; [|discriminate].
+  unfold s_cur in E. destruct (is_transport T _); [|discriminate]. inversion E; subst t.
+  unfold tnode. destruct (has_def T _ name); discriminate.
 Qed.
 
-Lemma resolve_client_to_transport ss c name c' i :
-  resolve T ss (NC c) name = Some (NT c' i) -> c' = c /\ has_def T (NT c 0) name = true.
+Lemma resolve_client_to_transport ss c name a i :
+  resolve T ss (NC c) name = Some (NT a i) -> has_def T (NT c 0) name = true.
 Proof.
   unfold resolve. destruct (has_def T (NC c) name); [discriminate|].
-  destruct (s_cur T ss c) as [j|]; [|discriminate].
-  destruct (has_def T (NT c j) name) eqn:E; [|discriminate].
-  intro H; inversion H; subst. split; [reflexivity|exact E].
+  destruct (s_cur T ss c) as [t|] eqn:E; [|discriminate].
+  unfold s_cur in E. destruct (is_transport T _); [|discriminate]. inversion E; subst t.
+  unfold tnode.
+  match goal with |- (if ?b then _ else _) = _ -> _ => destruct b eqn:E2 end; [|discriminate].
+  intros _. exact E2.
 Qed.
 
 Lemma carry_set_carry ss c l c' :
@@ -63,10 +66,12 @@ Lemma sclone_parts v n (ca : list (N * list (N * val))) c :
 Proof.
   unfold sclone. cbn [s_next].
   set (f1 := fun d : defn => (NC n, d_name d, sval T (mkSS v n ca) (NC c) (d_name d))).
-  set (f2 := fun i (d : defn) => (NT n i, d_name d, sval T (mkSS v n ca) (NT c i) (d_name d))).
+  set (f2 := fun t (d : defn) => (NT n (tidx t), d_name d, sval T (mkSS v n ca) t (d_name d))).
   exists (match s_cur T (mkSS v n ca) c with
-          | Some i => fold_left (fun w d => let '(m, k, x) := f2 i d in vput w m k x) (tdefs T)
-                                (fold_left (fun w d => let '(m, k, x) := f1 d in vput w m k x) (cdefs T) v)
+          | Some t => vput (fold_left (fun w d => let '(m, k, x) := f2 t d in vput w m k x) (tdefs T)
+                                (fold_left (fun w d => let '(m, k, x) := f1 d in vput w m k x) (cdefs T) v))
+                           (NC n) name_transport
+                           (fst (sval T (mkSS v n ca) (NC c) name_transport), tid n (tidx t))
           | None => fold_left (fun w d => let '(m, k, x) := f1 d in vput w m k x) (cdefs T) v
           end).
   intro cr.
@@ -76,12 +81,12 @@ Proof.
                = mkSS (fold_left (fun w d => let '(m, k, x) := f1 d in vput w m k x) (cdefs T) v) n cr).
   { apply (fold_sput (cdefs T) f1). }
   rewrite E1.
-  destruct (s_cur T (mkSS v n ca) c) as [i|].
+  destruct (s_cur T (mkSS v n ca) c) as [t|].
   - assert (E2 : forall w,
-               fold_left (fun s d => sput s (NT n i) (d_name d) (sval T (mkSS v n cr) (NT c i) (d_name d)))
+               fold_left (fun s d => sput s (NT n (tidx t)) (d_name d) (sval T (mkSS v n cr) t (d_name d)))
                          (tdefs T) (mkSS w n cr)
-               = mkSS (fold_left (fun w d => let '(m, k, x) := f2 i d in vput w m k x) (tdefs T) w) n cr).
-    { intro w. apply (fold_sput (tdefs T) (f2 i)). }
+               = mkSS (fold_left (fun w d => let '(m, k, x) := f2 t d in vput w m k x) (tdefs T) w) n cr).
+    { intro w. apply (fold_sput (tdefs T) (f2 t)). }
     rewrite E2. reflexivity.
   - reflexivity.
 Qed.
@@ -104,9 +109,13 @@ Proof.
   intros HS HG. pose proof (Sim_proj _ _ _ HS) as Ea.
   destruct b as [v nx cb]. cbn [s_vals s_next] in Ea.
   destruct HS as (_ & _ & HC). set (ca := s_carry a) in *. clearbody ca. subst a.
-  destruct o as [n name vv|n name|n names|c|c]; cbn [follow_guard_from] in HG.
+  destruct o as [n name vv|n name|n names|c|n tag|c]; cbn [follow_guard_from] in HG.
   - (* assignment *)
-    destruct (N.eqb name name_transport && memN (owner n) dirty) eqn:Eg; [discriminate|].
+    destruct (N.eqb name name_transport &&
+              match n with
+              | NC c => memN c dirty
+              | NT _ _ => match dirty with [] => false | _ => true end
+              end) eqn:Eg; [discriminate|].
     set (dirty' := match n with
                    | NC c => if has_def T (NT c 0) name then c :: dirty else dirty
                    | NT _ _ => dirty
@@ -115,7 +124,8 @@ Proof.
     { intros x Hx. unfold dirty' in Hx. destruct n as [c|c i]; [|exact Hx].
       destruct (has_def T (NT c 0) name); [eapply guard_mono_dirty; eauto|exact Hx]. }
     exists dirty'. cbn [sstep s_next].
-    destruct (owner n <? nx).
+    change (svexists T (mkSS v nx ca) vv) with (svexists T (mkSS v nx cb) vv).
+    destruct ((owner n <? nx) && svexists T (mkSS v nx cb) vv).
     2:{ cbn [fst snd]. repeat split; auto. }
     unfold sset.
     change (resolve T (mkSS v nx ca) n name) with (resolve T (mkSS v nx cb) n name).
@@ -126,17 +136,19 @@ Proof.
     destruct (validate T d vv); cbn [negb fst snd].
     2:{ repeat split; auto. }
     split; [reflexivity|]. split; [|exact HG].
-    pose proof (resolve_owner _ _ _ _ Er) as Hown.
-    destruct m as [c|c i0].
+    destruct m as [c|a0 i0].
     + (* a client option *)
       assert (Hc : carry_of (sput (mkSS v nx ca) (NC c) name (nvl d vv)) c = [] \/
                    N.eqb name name_transport = false).
       { destruct (N.eqb name name_transport) eqn:E1; [|auto]. left.
-        cbn [andb] in Eg. cbn [owner] in Hown. rewrite <- Hown in Eg.
-        apply (HC c Eg). }
+        cbn [andb] in Eg.
+        change (carry_of (sput (mkSS v nx ca) (NC c) name (nvl d vv)) c) with (carry_of (mkSS v nx ca) c).
+        apply HC. destruct n as [c1|a1 i1].
+        - apply resolve_client_to_client in Er. subst c. exact Eg.
+        - destruct dirty; [reflexivity|discriminate]. }
       assert (Ef : (if N.eqb name name_transport && is_transport T (nvl d vv)
-                       && negb (opt_eqb N.eqb (s_cur T (mkSS v nx ca) (owner (NC c))) (Some (snd (nvl d vv))))
-                    then fold_left (fun s kv => sput s (NT c (snd (nvl d vv))) (fst kv) (snd kv))
+                       && negb (node_opt_is (s_cur T (mkSS v nx ca) c) (tnode (nvl d vv)))
+                    then fold_left (fun s kv => sput s (tnode (nvl d vv)) (fst kv) (snd kv))
                                    (carry_of (sput (mkSS v nx ca) (NC c) name (nvl d vv)) c)
                                    (sput (mkSS v nx ca) (NC c) name (nvl d vv))
                     else sput (mkSS v nx ca) (NC c) name (nvl d vv))
@@ -144,20 +156,23 @@ Proof.
       { destruct Hc as [Hc|Hc].
         - rewrite Hc. cbn [fold_left]. destruct (_ && _ && _); reflexivity.
         - rewrite Hc. reflexivity. }
-      destruct n as [c1|c1 i1]; cbn [negb]; rewrite Ef;
-        (repeat split; [intros x Hx; apply (HC x), Hmono, Hx]).
+      rewrite Ef. repeat split. intros x Hx. apply (HC x), Hmono, Hx.
     + (* a transport option *)
-      destruct n as [c1|c1 i1]; cbn [negb].
-      * destruct (resolve_client_to_transport _ _ _ _ _ Er) as [Hcc Hd]. subst c.
+      destruct n as [c1|a1 i1].
+      * pose proof (resolve_client_to_transport _ _ _ _ _ Er) as Hd.
         repeat split. intros x Hx. rewrite carry_set_carry.
         unfold dirty' in Hx. rewrite Hd in Hx. cbn [memN] in Hx. apply orb_false_iff in Hx as [Hx1 Hx2].
         rewrite Hx1. apply (HC x Hx2).
-      * repeat split. intros x Hx. rewrite carry_set_carry.
-        destruct (N.eqb x c) eqn:E1.
-        -- apply N.eqb_eq in E1. subst x.
-           change (carry_of (sput (mkSS v nx ca) (NT c i0) name (nvl d vv)) c) with (carry_of (mkSS v nx ca) c).
-           rewrite (HC c Hx). reflexivity.
-        -- apply (HC x Hx).
+      * change (s_holder T (mkSS v nx ca) (NT a0 i0)) with (s_holder T (mkSS v nx cb) (NT a0 i0)).
+        destruct (s_holder T (mkSS v nx cb) (NT a0 i0)) as [c|].
+        -- repeat split. intros x Hx. rewrite carry_set_carry.
+           destruct (N.eqb x c) eqn:E1.
+           ++ apply N.eqb_eq in E1. subst x.
+              change (carry_of (sput (mkSS v nx ca) (NT a0 i0) name (nvl d vv)) c) with (carry_of (mkSS v nx ca) c).
+              rewrite (HC c Hx). reflexivity.
+           ++ apply (HC x Hx).
+        -- repeat split. intros x Hx. apply (HC x Hx).
+  - exists dirty. cbn [sstep fst snd s_next]. repeat split; auto.
   - exists dirty. cbn [sstep fst snd s_next]. repeat split; auto.
   - exists dirty. cbn [sstep fst snd s_next]. repeat split; auto.
   - exists dirty. cbn [sstep fst snd s_next]. repeat split; auto.
@@ -190,17 +205,18 @@ Qed.
 
 Lemma sinit_parts : s_carry (sinit T) = [] /\ s_next (sinit T) = 1.
 Proof.
-  unfold sinit. cbn [sstep svirgin s_next owner]. change (0 <? 1) with true. cbv iota.
+  unfold sinit. cbn [sstep svirgin s_next owner].
+  destruct (_ && _); [|auto].
   unfold sset. destruct (resolve T _ _ _); [|auto].
   destruct (find_def _ _); [|auto]. destruct (validate T _ _); cbn [negb fst]; auto.
 Qed.
 
 (* follow_partial *)
 Lemma follow_partial_l ops :
-  follow_guard T ops = true ->
+  noshare T ops = true -> follow_guard T ops = true ->
   snd (run T (init T) ops) = snd (srun T true (sinit T) ops).
 Proof.
-  intro HG. rewrite (options_refine_map_l T TOK ops). symmetry.
+  intros HN HG. rewrite (options_refine_map_l T TOK ops HN). symmetry.
   destruct sinit_parts as [Hc Hn].
   apply (srun_follow ops [] (sinit T) (sinit T)).
   - repeat split. intros c _. unfold carry_of. rewrite Hc. reflexivity.
